@@ -136,7 +136,7 @@ func (b *Batch) Get(key []byte) ([]byte, error) {
 	if dataFile == nil {
 		return nil, ErrDataFileNotFound
 	}
-	value, err := dataFile.ReadRecordValue(pos)
+	value, err := dataFile.ReadRecordValue(pos, key)
 	if err != nil {
 		return nil, err
 	}
